@@ -40,6 +40,8 @@ RULE += "; cached sections whose stored output is the empty string (seven shapes
 REQUIRED_COUNTERS += ["empty_output_templates"]
 RULE += "; cached sections of a module wrapped as ModuleTemplate (and its get_def) on rec and Beaker memory/file"
 REQUIRED_COUNTERS += ["module_template_cached_renders"]
+RULE += "; cached sections called below another buffer (capture, call bodies of buffered defs, buffered / filtered siblings), compared with the uncached template"
+REQUIRED_COUNTERS += ["nested_cached_buffer_templates"]
 
 _st = {"counter": 0}
 
@@ -524,6 +526,8 @@ def gen_cases(tier, seed):
         yield {"kind": "empty-output", "backend": b}
     for b in ("rec", "beaker-memory", "beaker-file"):
         yield {"kind": "module-template", "backend": b}
+    for b in ("rec", "beaker-memory"):
+        yield {"kind": "nested-buffers", "backend": b}
     n = 4000 if tier == "quick" else 40000
     per = 10
     for i in range(n // per):
@@ -804,6 +808,52 @@ def run_module_template(case, res):
         res.nontrivial("module-template", backend, route)
 
 
+NESTED_CACHED = [
+    ("captured", '<%def name="o()"><%def name="inner()" @C@>INNER<% tick("i") %></%def>[${capture(inner)}]</%def>${o()}'),
+    ("in the body of a call to a buffered def", '<%def name="w()" buffered="True">(${caller.body()})</%def><%def name="o()"><%def name="inner()" @C@>INNER<% tick("i") %></%def>'
+                                                '<%call expr="w()">${inner()}</%call></%def>${o()}'),
+    ("from a buffered sibling def", '<%def name="o()"><%def name="inner()" @C@>INNER<% tick("i") %></%def><%def name="sib()" buffered="True">{${inner()}}</%def><${sib()}></%def>${o()}'),
+    ("from a filtered sibling def", '<%def name="o()"><%def name="inner()" @C@>INNER<% tick("i") %></%def><%def name="sib()" filter="trim">  {${inner()}}  </%def><${sib()}></%def>${o()}'),
+    ("inside a call body, captured", '<%def name="w()">(${caller.body()})</%def><%call expr="w()"><%def name="inner()" @C@>INNER<% tick("i") %></%def>[${capture(inner)}]</%call>'),
+    ("anonymous cached block inside a buffered def", '<%def name="o()" buffered="True">A<%block @C@>BLK<% tick("i") %></%block>Z</%def>[${o()}]'),
+    ("top-level cached def captured", '<%def name="inner()" @C@>INNER<% tick("i") %></%def>[${capture(inner)}]{${inner()}}'),
+]
+
+
+def run_nested_cached_buffers(case, res):
+    """a cached section called while ANOTHER buffer is on top (capture, the body of a call to a buffered def, a
+    buffered or filtered sibling): its output goes where the uncached section's output goes, and is replayed there"""
+    T = _st["Template"]
+    backend = case["backend"]
+    for name, text in NESTED_CACHED:
+        _st["counter"] += 1
+        uid = "%d_%d" % (os.getpid(), _st["counter"])
+        impl, base_args, dog = make_backend(backend, uid + "_nb")
+        Rec.store.clear()
+        Rec.created.clear()
+        ticks = {}
+
+        def tick(n):
+            ticks[n] = ticks.get(n, 0) + 1
+            return ""
+
+        res.evaluations += 1
+        res.count("nested_cached_buffer_templates")
+        what = "backend=%s, cached section %s" % (backend, name)
+        try:
+            want = T(text.replace(" @C@", "")).render_unicode(tick=tick)
+            ticks.clear()
+            t = T(text.replace("@C@", 'cached="True"' + (' cache_region="%s"' % dog if dog else "")), cache_impl=impl, cache_args=dict(base_args), uri="/nb_%s.html" % uid)
+            outs = [t.render_unicode(tick=tick) for _ in range(3)]
+        except Exception as e:
+            res.violate("cached-output-in-wrong-buffer", "%s: %s: %s\n%s" % (what, type(e).__name__, e, text))
+            continue
+        if outs != [want] * 3 or ticks != {"i": 1}:
+            res.violate("cached-output-in-wrong-buffer", "%s: template %r rendered %r, uncached it renders %r; body executed %r times" % (what, text, outs, want, ticks.get("i", 0)),
+                        witness="cached section called below another buffer")
+        res.nontrivial("nested-cached-buffer", backend, name)
+
+
 def run_raising(case, res):
     """a cached section whose body raises: the exception propagates, nothing is stored for its key, and the body runs
     again on the next render"""
@@ -879,6 +929,9 @@ def run_case(case):
         return res
     if case["kind"] == "module-template":
         run_module_template(case, res)
+        return res
+    if case["kind"] == "nested-buffers":
+        run_nested_cached_buffers(case, res)
         return res
     if case["kind"] == "batch":
         for j in range(case["n"]):
